@@ -66,6 +66,27 @@ theorem cylinder_euler_exact (pi : Rat) (t : Tank) (hc : t.curve = none) (hpi : 
 example : area 3 ⟨0, 0, 5, 2, none, false⟩ * (updateHead 3 ⟨0, 0, 5, 2, none, false⟩ 1 1 (1/2) 6 - 1) = 1/2 * 6 :=
   cylinder_euler_exact 3 _ rfl (by norm_num) (by norm_num) 1 1 (1/2) 6
 
+/-- with a leak: the demand `store_results_in_network` stores is `Σin − Σout − leak`; `update_tank_heads` integrates it as it is,
+so the stored volume changes by `(Σin − Σout − leak)·dt` — the leak is taken out exactly once -/
+theorem cylinder_euler_exact_leak (pi : Rat) (t : Tank) (hc : t.curve = none) (hpi : 0 < pi) (hd : t.diam ≠ 0)
+    (prev head qin qout leak dt : Rat) :
+    area pi t * (updateHead pi t prev head (tankDemand qin qout leak) dt - prev) = (qin - qout - leak) * dt := by
+  rw [cylinder_euler_exact pi t hc hpi hd]; rfl
+
+/-- the leak-explicit oracle accepts exactly this identity: rows produced by the model pass `integralOkPairLeak` with zero
+tolerances -/
+theorem integral_oracle_accepts_model (pi : Rat) (t : Tank) (hc : t.curve = none) (hpi : 0 < pi) (hd : t.diam ≠ 0)
+    (t0 t1 h0 linkNet leak : Rat) (hdt : 0 ≤ t1 - t0) :
+    integralOkPairLeak pi t 0 0 0 ⟨t0, h0, tankDemand linkNet 0 leak, leak, linkNet⟩
+      ⟨t1, updateHead pi t h0 h0 (tankDemand linkNet 0 leak) (t1 - t0), 0, 0, 0⟩ = true := by
+  have e := cylinder_euler_exact pi t hc hpi hd h0 h0 (tankDemand linkNet 0 leak) (t1 - t0)
+  have ev : volumeAt pi t (updateHead pi t h0 h0 (tankDemand linkNet 0 leak) (t1 - t0)) - volumeAt pi t h0
+      = tankDemand linkNet 0 leak * (t1 - t0) := by
+    simp only [volumeAt, getVolume, hc, level]
+    linarith
+  simp only [integralOkPairLeak, ev]
+  simp [absR]
+
 /-- the level stored after the update of a volume-curve tank -/
 theorem volcurve_new_level (pi : Rat) (t : Tank) (c : List (Rat × Rat)) (hc : t.curve = some c) (prev head q dt : Rat) :
     level t (updateHead pi t prev head q dt)
